@@ -93,6 +93,15 @@ func vfTemplates() []Config {
 		7: {DefaultTCPClientName: "direct", DefaultUDPClientName: "direct", Routes: []RouteConfig{
 			{Name: "r1", Client: "proxy", ToPortRanges: "1000-2000,3000-4000", FromPorts: []uint16{53}, InvertFromPorts: true},
 		}},
+		// every port-set representation (single port, <=16 ranges, bitmap) with the two invert flags set differently
+		8: {DefaultTCPClientName: "direct", DefaultUDPClientName: "direct", Routes: []RouteConfig{
+			{Name: "r1", Client: "proxy", ToPortRanges: vfManyPorts, InvertToPorts: true, FromPorts: []uint16{53}},
+			{Name: "r2", Client: "alt", ToPorts: []uint16{80}, FromPortRanges: vfManyPorts, InvertFromPorts: true},
+		}},
+		9: {DefaultTCPClientName: "direct", DefaultUDPClientName: "direct", Routes: []RouteConfig{
+			{Name: "r1", Client: "proxy", ToPorts: []uint16{443}, InvertToPorts: true, FromPortRanges: "1000-2000"},
+			{Name: "r2", Client: "alt", ToPortRanges: "1-100,200-300", FromPorts: []uint16{5353}, InvertFromPorts: true},
+		}},
 	}
 }
 
@@ -268,7 +277,16 @@ func vfRef(cfg *Config, q *vfReq) int {
 	return vfClientClass(cfg.DefaultTCPClientName)
 }
 
+// vfPinned: the port-focused templates fix the dimensions their routes do not look at (address
+// families, server, user, resolver outcome) so that the ports stay the only symbolic inputs.
+var vfPinned bool
+
 func vfSymAddr(tag string) netip.Addr {
+	if vfPinned {
+		var a [4]byte
+		copy(a[:], vfBytes(tag+"4", 4))
+		return netip.AddrFrom4(a)
+	}
 	switch vfConcretize(vfU64(tag+"Kind"), 0, 2) {
 	case 0:
 		var a [4]byte
@@ -295,8 +313,13 @@ func vfC09_Route() {
 	tcpMap := map[string]netio.StreamClient{"direct": &vfTCPClient{"direct"}, "proxy": &vfTCPClient{"proxy"}, "alt": &vfTCPClient{"alt"}}
 	udpMap := map[string]zerocopy.UDPClient{"direct": &vfUDPClient{"direct"}, "proxy": &vfUDPClient{"proxy"}, "alt": &vfUDPClient{"alt"}}
 	servers := map[string]int{"s0": 0, "s1": 1, "s2": 2}
+	vfPinned = vfCase("pin") == 1
 	res := &vfResolver{}
-	switch vfConcretize(vfU64("resolverMode"), 0, 2) {
+	mode := uint64(0)
+	if !vfPinned {
+		mode = vfConcretize(vfU64("resolverMode"), 0, 2)
+	}
+	switch mode {
 	case 0:
 		res.ip = vfSymAddr("resolved")
 	case 1:
@@ -307,8 +330,12 @@ func vfC09_Route() {
 	r, err := cfg.Router(zap.NewNop(), []dns.SimpleResolver{res}, map[string]dns.SimpleResolver{"r": res}, tcpMap, udpMap, servers)
 	vfAssert(err == nil, "template configuration loads")
 	q := &vfReq{udp: udp, resolver: res}
-	q.server = int(vfConcretize(vfU64("server"), 0, 2))
-	q.user = vfUserNames[vfConcretize(vfU64("user"), 0, 3)]
+	if !vfPinned {
+		q.server = int(vfConcretize(vfU64("server"), 0, 2))
+		q.user = vfUserNames[vfConcretize(vfU64("user"), 0, 3)]
+	} else {
+		q.user = vfUserNames[0]
+	}
 	q.src = netip.AddrPortFrom(vfSymAddr("src"), vfU16("srcPort"))
 	q.dstPort = vfU16("dstPort")
 	var target conn.Addr
